@@ -443,10 +443,6 @@ func applyA(s *stateA, e eventA) (*stepResult, error) {
 	}
 	_, raw := newStatusClient(s.objects(), nil)
 	switch e.Op {
-	case "reconcile":
-		res.Real = true
-		res.Err, res.Panic = reconcilePG(counted)
-		res.Calls = append([]string{}, log.calls...)
 	case "set-pc", "set-preemptibility":
 		pg := &v2alpha2.PodGroup{}
 		if err := raw.Get(ctx, types.NamespacedName{Namespace: nsA, Name: pgName}, pg); err != nil {
